@@ -2,6 +2,7 @@
 package core
 
 import (
+	"sync/atomic"
 	"crypto/sha1"
 	"encoding/hex"
 	"fmt"
@@ -104,6 +105,9 @@ type Prop struct {
 	Exhaustive func(c *Ctx) bool
 	// CaseTimeoutS: wall-clock watchdog per case (inconclusive when it fires).
 	CaseTimeoutS int
+	// StallS: when > 0 the check calls Beat() once per input and the watchdog
+	// also fires when no beat arrived for StallS seconds (a single input is stuck).
+	StallS int
 	// HangIsViolation: a watchdog hit that reproduces alone with the VM step
 	// counter not advancing is a violation (C01 hang rule).
 	HangIsViolation bool
@@ -180,6 +184,11 @@ func (r *Rng) P(num, den int) bool { return r.N(den) < num }
 func (r *Rng) Pick(xs []string) string { return xs[r.N(len(xs))] }
 
 func Sprintf(f string, a ...interface{}) string { return fmt.Sprintf(f, a...) }
+
+// Beats is the per-input heartbeat read by the worker's watchdog.
+var Beats atomic.Int64
+
+func Beat() { Beats.Add(1) }
 
 func Trunc(s string, n int) string {
 	if len(s) <= n {
